@@ -63,6 +63,11 @@ CHECKS = {
    text="Every schema of the bounded composition grammar (one or two leaf keywords from a 38-entry alphabet; every structural keyword over a 12-schema sub-schema alphabet, alone and paired with leaf keywords; thorough adds ternary combinations and depth 3) is imported and each of 21 constant-biased instances is checked: instance & schema validates as concrete exactly when the independent validator accepts. Schemas the importer rejects are skipped and counted. For schemas without object-shaped keywords the JSON Schema generated back from the CUE must accept exactly the same instances.",
    note="Trusts python jsonschema 4.26. Unclaimed: prefixItems (not in the property's keyword list), the round trip through Generate for schemas with object-shaped keywords. Five known importer findings are listed in known_findings.jsonl.",
    ref="DESIGN.md §3 C13"),
+ "C15": dict(engine="enum",
+   technique="bounded-exhaustive enumeration of file sets and raw zip archives over a hostile name/mode/size alphabet through the real CheckFiles/Create/CheckZip/Unzip/CheckDir on the real file system (per-case scratch directory with sentinels)",
+   text="Every file set of 1-2 paths (<=2 segments over 30 hostile segments, slash variants) plus the module file: Create succeeds exactly when CheckFiles has no error; every created archive passes CheckZip, extracts, and the extracted tree is byte-identical to the valid set and is accepted by CheckDir. Every raw zip of 1-3 entries with hostile names, modes (symlink, dir, device, setuid) and lying declared sizes: Unzip either fails or writes only regular files beneath the target with no more bytes than declared, nothing outside the target changes, and nothing is extracted that the file-list checker rejects. Declared sizes at limit-1/limit/limit+1 of the three size limits are probed through fake FileInfo and forged headers.",
+   note="Runs on tmpfs (/dev/shm) when present, else /verif/.work/tmp. Documented asymmetries are honoured (CheckDir skips VCS directories). One known three-checker asymmetry (.hg_archival.txt) is listed in known_findings.jsonl.",
+   ref="DESIGN.md §3 C15"),
  "C20": dict(engine="enum",
    technique="bounded-exhaustive enumeration of packages (schema+data declaration pool x file partitions, trim testdata with every literal replaced) through the real loader, trim.Files and evaluator; canonical value with defaults resolved compared before/after",
    text="Every package of <=k declarations from the schema+redundant-data pool, in every partition over 1-2 files and both file orders, and every trim testdata archive unmutated and with each literal replaced, is loaded as the command does (cue/load overlay), trimmed with trim.Files, printed, re-loaded and re-evaluated: the files must still build, canon with defaults resolved must be identical at every path (same data, same errors) and trimming the result again must change nothing.",
